@@ -358,6 +358,8 @@ def match_resolution(want, got):
 
 def match_items(want, got):
     got = list(got)
+    orig = list(range(len(got)))
+    pos = []      # position (in the reported list) of the element matched to each wanted item
     for w in want:
         found = None
         why = "complex-item-missing"
@@ -381,8 +383,20 @@ def match_items(want, got):
         if found is None:
             return why
         got.pop(found)
+        pos.append(orig.pop(found))
     if got:
         return "complex-item-unexpected"
+    # the items of a bag are a SEQUENCE (array slots): a literal keeps its place, the values a reference resolves to stand where the reference stood
+    # (the values of one reference - one per configuration of its target - may come in any order among themselves)
+    groups = []
+    for w, p_ in zip(want, pos):
+        if isinstance(w, tuple) and groups and groups[-1][0]:
+            groups[-1][1].append(p_)
+        else:
+            groups.append((isinstance(w, tuple), [p_]))
+    for (_, a), (_, b) in zip(groups, groups[1:]):
+        if max(a) > min(b):
+            return "complex-items-out-of-order"
     return None
 
 
